@@ -43,6 +43,7 @@ def search_plan(tier, disagreements):
 def gen_card(rng, zpick):
     n = rng.randint(1, 8)
     neg = rng.random() < 0.4
+    plus_card = not neg and rng.random() < 0.1
     toks = []
     ents = []
     for i in range(n):
@@ -54,6 +55,8 @@ def gen_card(rng, zpick):
             f = rng.choice(FRACS_ZERO)
         if neg:
             f = '-' + f
+        elif plus_card or rng.random() < 0.05:
+            f = '+' + f          # an explicit plus sign is a positive (atom) fraction like any other
         ents.append((zaid, f))
         if rng.random() < 0.12:
             toks.append(rng.choice(['nlib=70c', 'gas=1', 'plib=04p']))
